@@ -9,7 +9,7 @@
    not-equals leaf).  `ideal_obs_*` (Spec/Frame.v) is a function of the rule, the pipeline
    definitions and the backend configuration only. *)
 From Coq Require Import NArith List Bool String.
-From PS Require Import Base.Chars Base.Outcome Model.History Spec.Frame Proofs.HistoryP Proofs.HistoryRefP.
+From PS Require Import Base.Chars Base.Outcome Model.History Spec.Frame Proofs.HistoryP Proofs.HistoryRefP Proofs.HistorySharingP.
 Import ListNotations.
 
 (* convert(collection) after ANY history, on ANY backend of that history - shared pipeline objects
@@ -33,6 +33,23 @@ Theorem C15_frame_rule_partial : forall E ops b bk fmt r,
   out_obs (snd (step E w (OConvRule b r fmt))) = ideal_obs_rule E (b_cls bk) (b_user bk) (b_collect bk) fmt r.
 Proof. exact frame_rule_reachable. Qed.
 Print Assumptions C15_frame_rule_partial.
+
+(* the same under a condition that can be read off the history: no two backends were created from
+   item objects that exist only once (same class with class-level pipeline items for one of the
+   formats in use, or the same non-empty user pipeline object) *)
+Theorem C15_frame : forall E fmts ops b bk fmt r,
+  no_sharing E fmts ops = true -> forallb (op_fmt_ok fmts) ops = true ->
+  let w := fst (run E init ops) in
+  nth_error (w_bks w) b = Some bk -> fmt_ok bk fmt = true ->
+  out_obs (snd (step E w (OConvRule b r fmt))) = ideal_obs_rule E (b_cls bk) (b_user bk) (b_collect bk) fmt r.
+Proof. exact frame_rule_no_sharing. Qed.
+Print Assumptions C15_frame.
+
+Theorem C15_no_sharing_owns : forall E fmts ops,
+  no_sharing E fmts ops = true -> forallb (op_fmt_ok fmts) ops = true ->
+  forall b bk, nth_error (w_bks (fst (run E init ops))) b = Some bk -> owns_ok E (fst (run E init ops)) bk = true.
+Proof. exact no_sharing_owns. Qed.
+Print Assumptions C15_no_sharing_owns.
 
 (* the form the correspondence check evaluates on the real code: after the history = in a world
    where nothing happened but the creation of one backend with the same configuration *)
@@ -86,3 +103,9 @@ Example C15_premises_inhabited :
   exists bk, nth_error (w_bks w) 0 = Some bk /\ owns_ok E_wit w bk = true /\ fmt_ok bk 2 = true /\
              b_last bk <> None.
 Proof. exact premises_inhabited. Qed.
+
+(* ... and so is the syntactic premise, by a history with two backends that are both initialised *)
+Example C15_no_sharing_inhabited :
+  let ops := [ONew 0 (Some 0%N) false; ONew 0 None true; OInit 0%nat 2; OInit 1%nat 2; OConvRule 0%nat r_win 2] in
+  no_sharing E_wit [0%N; 1%N; 2%N] ops = true /\ forallb (op_fmt_ok [0%N; 1%N; 2%N]) ops = true.
+Proof. split; reflexivity. Qed.
